@@ -43,6 +43,7 @@ type genCtx struct {
 	noState  int               // > 0: no stateful call here (branch of if(), see assumptions)
 	noNested bool              // no stateful call inside nested lambdas (exclusion)
 	kinds    []VT              // kinds a new name may take
+	timeName string            // name of the (single) time-valued reference ("" = ordinary names)
 }
 
 func (g *genCtx) pick(label string, weights ...int) int {
@@ -76,8 +77,14 @@ func (g *genCtx) ref(want VT) *Tree {
 			cands = append(cands, n.Name)
 		}
 	}
+	if want == tTime && g.timeName != "" && len(cands) > 0 {
+		return &Tree{K: "ref", S: cands[0]}
+	}
 	if len(g.names) < g.maxNames && g.kindAllowed(want) && (len(cands) == 0 || rapid.IntRange(0, 5).Draw(g.t, "newname") == 0) {
 		n := nameInfo{Name: "v" + strconv.Itoa(len(g.names)), Kind: want}
+		if want == tTime && g.timeName != "" {
+			n.Name = g.timeName
+		}
 		g.names = append(g.names, n)
 		return &Tree{K: "ref", S: n.Name}
 	}
